@@ -34,6 +34,7 @@ def run(ctx):
     ctx.rule(default_length)
     ctx.rule(default_window)
     ctx.rule(logfloor)
+    ctx.rule(filters_stored_whole)
 
 
 def geom(ctx, R="R-C02-geom"):
@@ -310,3 +311,30 @@ def logfloor(ctx, R="R-C02-logfloor"):
                 ctx.check(textual, R, f, c, "the log is taken only under use_log",
                           "log is not guarded by the use_log flag (guards: %s)" % guards)
     ctx.floor(R + "/sites", n, 4)
+
+
+
+def filters_stored_whole(ctx, R="R-C02-walk"):
+    """The computer applies the bank's truncated responses as the bank returns them: what the constructor stores is element 1
+    (the response) and element 0 (its first bin) of bank.get_truncated_response(i, dft_size), unmodified - a response cut,
+    scaled or re-aligned on the way no longer sums over the bins the documented definition sums over."""
+    prog = ctx.prog
+    c = prog.cls("compute.ShortTimeFourierTransformFrameComputer")
+    f = prog.own_method(c, "__init__")
+    ev = SymEval(prog, f).run()
+    for attr, pos, what in (("self._truncated_filts", 1, "truncated responses"), ("self._filt_start_idxs", 0, "start bins")):
+        v = ev.env.get(attr)
+        if v is None or not (cc.is_call(v, "list") and len(v.args) == 2 and cc.is_call(v.args[1], "repeat")):
+            ctx.error(R, "cannot decide how the constructor stores the bank's %s: %s" % (what, S.show(v)[:100] if v is not None else "not assigned"))
+            continue
+        elem = v.args[1].args[1]
+        calls = [x for x in S.walk(elem) if isinstance(x, S.E) and cc.is_call(x, ".get_truncated_response")]
+        plain = cc.is_call(elem, "getitem") and cc.is_call(elem.args[1], ".get_truncated_response") and elem.args[2] == S.lift(pos)
+        if plain:
+            ctx.ok(R, f.loc(), "the constructor stores the bank's %s unmodified" % what)
+        elif calls and not S.has_unknown(elem):
+            ctx.bad(R, f, f.node, "the constructor stores %s as the bank's %s: the response is altered between the bank and the frame computation, so the "
+                    "coefficient is no longer the sum over all bins of the bank's response" % (S.show(elem)[:140], what),
+                    "the constructor stores the bank's %s unmodified" % what, robust=True)
+        else:
+            ctx.error(R, "cannot decide how the constructor stores the bank's %s: %s" % (what, S.show(elem)[:120]))
